@@ -20,6 +20,11 @@ Mirrors (after the `fix:` commits 986d19b, 2723549, 6e48692):
 * constructors (`flag_impl.hpp`, `option_impl.hpp`, `product_impl.hpp::check_disjoint`,
   `check_short_long_names.cpp`, `check_sub_command_names.cpp`) : `construct`
 * `core/include/fcppt/extract_from_string_locale.hpp` (+ libstdc++ `num_get`, classic locale, `enum_::input`) : `convert`
+* `usage()` of every parser class, `src/options/indent.cpp`, `src/options/detail/{help_text,long_or_short_name}.cpp`,
+  `include/fcppt/options/detail/type_annotation.hpp`, `pretty_type*.hpp`                       : `OP.usage`, `indent`, …
+* the text of every `missing_error` / `other_error` / `error` / exception (the `FCPPT_TEXT(...)` expressions at the
+  places where the errors are made; `sum` joins two texts with `indent … "\n|\n" … indent`)       : the `msg` fields
+* `flag_names()` / `option_names()` are `std::set`s: `flagNameSet`, `optionNameSet` (sorted, without duplicates)
 
 An argument is a pair *(original index, text)*; the index never influences the control flow, it only
 feeds the **consumption log** (index ↦ label of the leaf parser that took it; `cmd` for a command name).
@@ -54,27 +59,35 @@ def Val.beqBase : Val → Val → Bool
   | .unit, .unit => true
   | _, _ => false
 
+/-- `nm`: the `long_name` of an argument (only shown in usage and error texts); `help`: the optional help text -/
 inductive OP where
-  | arg (l : String) (ty : VTy)
-  | flag (l : String) (sh : Option String) (lg : String) (act inact : Val)
-  | opt (l : String) (sh : Option String) (lg : String) (dflt : Option Val) (ty : VTy)
+  | arg (l : String) (ty : VTy) (nm : String) (help : Option String)
+  | flag (l : String) (sh : Option String) (lg : String) (act inact : Val) (help : Option String)
+  | opt (l : String) (sh : Option String) (lg : String) (dflt : Option Val) (ty : VTy) (help : Option String)
   | unit (l : String)
   | unitSwitch (l : String) (sh : Option String) (lg : String)
   | optional (p : OP)
   | many (p : OP)
   | prod (a b : OP)
   | sum (l : String) (a b : OP)
-  | commands (common : OP) (subs : List (String × String × OP))     -- (command name, tag label, parser)
+  | commands (common : OP) (subs : List (String × String × Option String × OP))     -- (command name, tag label, help text, parser)
   deriving Repr, Inhabited
+
+abbrev Subs := List (String × String × Option String × OP)
 
 /-- `switch_<Label>` is `flag<Label,bool>` with active `true`, inactive `false` -/
-def OP.switch (l : String) (sh : Option String) (lg : String) : OP := .flag l sh lg (.bool true) (.bool false)
+def OP.switch (l : String) (sh : Option String) (lg : String) (help : Option String := none) : OP :=
+  .flag l sh lg (.bool true) (.bool false) help
 
 inductive PErr where
-  | missing (st : List Arg)     -- `missing_error` (carries a state)
-  | other                       -- `other_error`
-  | diverge                     -- fuel exhausted
+  | missing (st : List Arg) (msg : String)     -- `missing_error` (carries a state and a text)
+  | other (msg : String)                       -- `other_error`
+  | diverge                                    -- fuel exhausted
   deriving Repr, Inhabited
+
+def PErr.msg : PErr → String
+  | .missing _ m | .other m => m
+  | .diverge => ""
 
 abbrev Res := Except PErr (List Arg × Rec × Log)
 
@@ -86,28 +99,28 @@ def OP.size : OP → Nat
   | .optional p | .many p => p.size + 1
   | .prod a b | .sum _ a b => a.size + b.size + 1
   | .commands c subs => c.size + sizeSubs subs + 1
-def sizeSubs : List (String × String × OP) → Nat
+def sizeSubs : Subs → Nat
   | [] => 0
-  | (_, _, p) :: r => p.size + sizeSubs r + 1
+  | (_, _, _, p) :: r => p.size + sizeSubs r + 1
 end
 
 /-- `flag_names()` -/
 def OP.flagNames : OP → List String
   | .arg .. | .opt .. | .unit .. | .commands .. => []
-  | .flag _ sh lg _ _ | .unitSwitch _ sh lg => lg :: sh.toList
+  | .flag _ sh lg _ _ _ | .unitSwitch _ sh lg => lg :: sh.toList
   | .optional p | .many p => p.flagNames
   | .prod a b | .sum _ a b => a.flagNames ++ b.flagNames
 
 /-- `option_names()` -/
 def OP.optionNames : OP → Ctx
   | .arg .. | .flag .. | .unit .. | .unitSwitch .. | .commands .. => []
-  | .opt _ sh lg _ _ => (lg, false) :: (sh.toList.map fun s => (s, true))
+  | .opt _ sh lg _ _ _ => (lg, false) :: (sh.toList.map fun s => (s, true))
   | .optional p | .many p => p.optionNames
   | .prod a b | .sum _ a b => a.optionNames ++ b.optionNames
 
 /-- the labels of `result_of<Parser>` -/
 def OP.labels : OP → List String
-  | .arg l _ | .flag l .. | .opt l .. | .unit l | .unitSwitch l .. => [l]
+  | .arg l .. | .flag l .. | .opt l .. | .unit l | .unitSwitch l .. => [l]
   | .optional p | .many p => p.labels
   | .prod a b => a.labels ++ b.labels
   | .sum l _ _ => [l]
@@ -186,9 +199,21 @@ def parseSignMag (s : String) : Option (Bool × Nat) :=
 
 def enumNames : List String := ["red", "green", "blue"]
 
-/-- `extract_from_string<Type>`; the text is assumed free of white space (argument of a command line token) -/
-def convert : VTy → String → Option Val
-  | .str, s => if s = "" then none else some (.str s)
+/-- `std::isspace` in the classic locale (what `operator>>` skips / stops at) -/
+def isSpace (c : Char) : Bool := c = ' ' || c = '\t' || c = '\n' || c = '\x0b' || c = '\x0c' || c = '\r'
+
+/-- what one formatted extraction sees of the text: leading white space is skipped, the word runs up to the next white
+space; `none` when no word is there (the extraction fails) or when something follows the word (`peek() != eof`: "the
+string has to be consumed completely") -/
+def wordOf (s : String) : Option String :=
+  let body := s.toList.dropWhile isSpace
+  let word := body.takeWhile (fun c => !isSpace c)
+  let rest := body.dropWhile (fun c => !isSpace c)
+  if word.isEmpty || !rest.isEmpty then none else some (String.ofList word)
+
+/-- the conversion of one word (no white space inside) -/
+def convertWord : VTy → String → Option Val
+  | .str, s => some (.str s)
   | .int, s => match parseSignMag s with
     | some (true, m) => if m ≤ 2147483648 then some (.int (-(m : Int))) else none
     | some (false, m) => if m ≤ 2147483647 then some (.int m) else none
@@ -200,14 +225,111 @@ def convert : VTy → String → Option Val
     | some i => some (.enm i)
     | none => none
 
+/-- `extract_from_string<Type>`: `operator>>` (skips leading white space, reads one word), then the whole text must have
+been consumed -/
+def convert (ty : VTy) (s : String) : Option Val :=
+  match wordOf s with
+  | none => none
+  | some w => convertWord ty w
+
+/-! ## texts: usage strings and error messages -/
+
+/-- `std::set`: sorted by `lt`, without duplicates -/
+def insertSet {α : Type} [BEq α] (lt : α → α → Bool) (x : α) : List α → List α
+  | [] => [x]
+  | y :: r => if x == y then y :: r else if lt x y then x :: y :: r else y :: insertSet lt x r
+
+def toSet {α : Type} [BEq α] (lt : α → α → Bool) (l : List α) : List α := l.foldr (insertSet lt) []
+
+def strLt (a b : String) : Bool := decide (a < b)
+
+/-- `operator<` of `option_name`: by (name, is_short) -/
+def optLt (a b : String × Bool) : Bool := strLt a.1 b.1 || (a.1 == b.1 && (!a.2 && b.2))
+
+/-- `flag_names()` as the `std::set` it is -/
+def OP.flagNameSet (p : OP) : List String := toSet strLt p.flagNames
+
+/-- `option_names()` as the `std::set` it is -/
+def OP.optionNameSet (p : OP) : Ctx := toSet optLt p.optionNames
+
+/-- `fcppt::container::output`: `[a,b,c]` -/
+def showList (l : List String) : String := "[" ++ ",".intercalate l ++ "]"
+
+/-- `pretty_type<Type>()`: `type_name_from_info` for the arithmetic types, `string`, the enumerator names for an enum -/
+def prettyType : VTy → String
+  | .int => "int"
+  | .uns => "unsigned int"
+  | .str => "string"
+  | .enm => showList enumNames
+
+/-- `detail::type_annotation<Type>()` -/
+def typeAnnotation (ty : VTy) : String := " : " ++ prettyType ty
+
+/-- `output_to_fcppt_string(value)` for the value types used (`operator<<`, default stream flags) -/
+def Val.plain : Val → String
+  | .int i => toString i
+  | .str s => s
+  | .bool b => if b then "1" else "0"
+  | .enm i => enumNames.getD i "?"
+  | _ => ""
+
+/-- `detail::help_text` -/
+def helpText : Option String → String
+  | none => ""
+  | some h => " - " ++ h
+
+/-- `detail::long_or_short_name` -/
+def longOrShort (lg : String) (sh : Option String) : String :=
+  "--" ++ lg ++ (match sh with | none => "" | some s => "|-" ++ s)
+
+/-- `algorithm::split_string(_, '\n')` on the characters: the pieces between the delimiters (always at least one) -/
+def splitOnChar (d : Char) : List Char → List (List Char)
+  | [] => [[]]
+  | c :: r =>
+    if c = d then [] :: splitOnChar d r
+    else match splitOnChar d r with
+      | h :: t => (c :: h) :: t
+      | [] => [[c]]
+
+/-- `fcppt::options::indent`: every line gets two blanks in front -/
+def indent (s : String) : String :=
+  "\n".intercalate ((splitOnChar '\n' s.toList).map fun l => "  " ++ String.ofList l)
+
+/-- the text `sum` makes out of the texts of its two failures -/
+def sumText (e1 e2 : String) : String := indent e1 ++ "\n|\n" ++ indent e2
+
+mutual
+/-- `usage()` -/
+def OP.usage : OP → String
+  | .arg _ ty nm help => nm ++ typeAnnotation ty ++ helpText help
+  | .flag _ sh lg _ _ help => "[ " ++ longOrShort lg sh ++ " ]" ++ helpText help
+  | .opt _ sh lg dflt ty help =>
+    (if dflt.isSome then "[ " else "") ++ longOrShort lg sh ++ typeAnnotation ty ++
+      (match dflt with | none => "" | some v => " / " ++ v.plain) ++
+      (if dflt.isSome then " ]" else "") ++ helpText help
+  | .unit _ => ""
+  | .unitSwitch _ sh lg => longOrShort lg sh
+  | .optional p => "[ " ++ p.usage ++ " ]"
+  | .many p => "[ " ++ p.usage ++ " ]*"
+  | .prod a b => a.usage ++ "\n" ++ b.usage
+  | .sum _ a b => "(\n" ++ indent a.usage ++ "\n|\n" ++ indent b.usage ++ "\n)"
+  | .commands c subs => c.usage ++ "\n" ++ indent (usageSubs subs)
+/-- the fold over the sub-commands in `commands::usage` -/
+def usageSubs : Subs → String
+  | [] => ""
+  | (n, _, help, p) :: r =>
+    n ++ ": " ++ (match help with | none => "" | some h => " (" ++ h ++ ")") ++
+      indent (if p.usage.isEmpty then "" else "\n" ++ p.usage) ++ "\n" ++ usageSubs r
+end
+
 /-! ## the parser interpreter -/
 
 /-- `detail::combine_errors` as used by `sum` -/
 def combineErrors : PErr → PErr → PErr
   | .diverge, _ => .diverge
   | _, .diverge => .diverge
-  | .missing _, .missing st2 => .missing st2
-  | _, _ => .other
+  | .missing _ m1, .missing st2 m2 => .missing st2 (sumText m1 m2)
+  | e1, e2 => .other (sumText e1.msg e2.msg)
 
 def consVal (v : Val) : Val → Val
   | .list l => .list (v :: l)
@@ -229,34 +351,37 @@ def parseFlag (l : String) (sh : Option String) (lg : String) (act inact : Val) 
   | none => .ok (s1.2.1, [(l, if s1.1 then act else inact)], s1.2.2)
   | some s =>
     let s2 := flagStep l s true s1.2.1                   -- short_found, on the state left by the long name
-    if s1.1 && s2.1 then .error .other
+    if s1.1 && s2.1 then
+      .error (.other ("Both the short flag name " ++ s ++ " and the long flag name " ++ lg ++ " were specified at the same time"))
     else .ok (s2.2.1, [(l, if s2.1 || s1.1 then act else inact)], s1.2.2 ++ s2.2.2)
 
 /-- one `detail::use_option` call of `option::parse` after `map_result`: (flag_result, state afterwards, log) -/
 def optStep (l name : String) (isShort : Bool) (st : List Arg) : Except PErr (Option String) × List Arg × Log :=
   match useOption name isShort st with
   | .notFound => (.ok none, st, [])
-  | .missingArgument => (.error .other, st, [])
+  | .missingArgument => (.error (.other ("Missing option for " ++ flagName name isShort)), st, [])
   | .found n v st' => (.ok (some v.2), st', [(n.1, l), (v.1, l)])
 
 /-- `make_value` of `option::parse` -/
-def makeValue (ty : VTy) (s : String) : Except PErr Val :=
+def makeValue (sh : Option String) (lg : String) (ty : VTy) (s : String) : Except PErr Val :=
   match convert ty s with
   | some v => .ok v
-  | none => .error .other
+  | none => .error (.other ("Failed to convert \"" ++ s ++ "\" to " ++ prettyType ty ++ " for option " ++ longOrShort lg sh ++ "."))
 
 /-- `make_or_default_value` (`get_default_value` moves the *current* state into the missing_error) -/
-def makeOrDefault (dflt : Option Val) (ty : VTy) (cur : List Arg) : Option String → Except PErr Val
-  | some s => makeValue ty s
+def makeOrDefault (sh : Option String) (lg : String) (dflt : Option Val) (ty : VTy) (cur : List Arg) : Option String → Except PErr Val
+  | some s => makeValue sh lg ty s
   | none => match dflt with
     | some v => .ok v
-    | none => .error (.missing cur)
+    | none => .error (.missing cur ("Missing option " ++ longOrShort lg sh ++ "."))
 
 /-- `combine_results` -/
-def combineResults (dflt : Option Val) (ty : VTy) (cur : List Arg) (lo so : Option String) : Except PErr Val :=
+def combineResults (sh : Option String) (lg : String) (dflt : Option Val) (ty : VTy) (cur : List Arg) (lo so : Option String) : Except PErr Val :=
   match lo with
-  | none => makeOrDefault dflt ty cur so
-  | some lv => if so.isSome then .error .other else makeValue ty lv
+  | none => makeOrDefault sh lg dflt ty cur so
+  | some lv =>
+    if so.isSome then .error (.other ("Cannot specify both long and short name at once: " ++ longOrShort lg sh))
+    else makeValue sh lg ty lv
 
 /-- `option::parse` -/
 def parseOpt (l : String) (sh : Option String) (lg : String) (dflt : Option Val) (ty : VTy) (st : List Arg) : Res :=
@@ -265,7 +390,7 @@ def parseOpt (l : String) (sh : Option String) (lg : String) (dflt : Option Val)
   | none =>
     match s1.1 with
     | .error e => .error e
-    | .ok o => match makeOrDefault dflt ty s1.2.1 o with
+    | .ok o => match makeOrDefault sh lg dflt ty s1.2.1 o with
       | .ok v => .ok (s1.2.1, [(l, v)], s1.2.2)
       | .error e => .error e
   | some s =>
@@ -274,44 +399,47 @@ def parseOpt (l : String) (sh : Option String) (lg : String) (dflt : Option Val)
     | .error e, _ => .error e
     | .ok _, .error e => .error e
     | .ok lo, .ok so =>
-      match combineResults dflt ty s2.2.1 lo so with
+      match combineResults sh lg dflt ty s2.2.1 lo so with
       | .ok v => .ok (s2.2.1, [(l, v)], s1.2.2 ++ s2.2.2)
       | .error e => .error e
 
-def findSub (name : String) : List (String × String × OP) → Option (String × OP)
+def findSub (name : String) : Subs → Option (String × OP)
   | [] => none
-  | (n, t, p) :: r => if name = n then some (t, p) else findSub name r
+  | (n, t, _, p) :: r => if name = n then some (t, p) else findSub name r
+
+/-- `detail::leftover_error` -/
+def leftoverText (st : List Arg) : String := "Leftover arguments " ++ showList (st.map Prod.snd)
 
 /-- `Parser::parse(state&&, parse_context const&)` -/
 def parse : Nat → OP → List Arg → Ctx → Res
   | 0, _, _, _ => .error .diverge
   | f + 1, p, st, c =>
     match p with
-    | .arg l ty =>
+    | .arg l ty nm _ =>
       match popArg st c with
-      | none => .error (.missing st)
+      | none => .error (.missing st ("Missing argument \"" ++ nm ++ "\"."))
       | some (a, st') =>
         match convert ty a.2 with
         | some v => .ok (st', [(l, v)], [(a.1, l)])
-        | none => .error .other
-    | .flag l sh lg act inact => parseFlag l sh lg act inact st
-    | .opt l sh lg dflt ty => parseOpt l sh lg dflt ty st
-    | .unit l => if st.isEmpty then .ok (st, [(l, .unit)], []) else .error .other
+        | none => .error (.other ("Failed to convert \"" ++ a.2 ++ "\" to " ++ prettyType ty ++ " for argument \"" ++ nm ++ "\"."))
+    | .flag l sh lg act inact _ => parseFlag l sh lg act inact st
+    | .opt l sh lg dflt ty _ => parseOpt l sh lg dflt ty st
+    | .unit l => if st.isEmpty then .ok (st, [(l, .unit)], []) else .error (.other "Excess arguments")
     | .unitSwitch l sh lg =>
       match parseFlag l sh lg (.bool true) (.bool false) st with
       | .error e => .error e
       | .ok (st', r, lg') =>
         match r with
         | [(_, .bool true)] => .ok (st', [(l, .unit)], lg')
-        | _ => .error (.missing st')
+        | _ => .error (.missing st' ("Missing flag " ++ longOrShort lg sh ++ "."))
     | .optional q =>
       match parse f q st c with
-      | .error (.missing _) => .ok (st, q.labels.map fun l => (l, .none), [])
+      | .error (.missing _ _) => .ok (st, q.labels.map fun l => (l, .none), [])
       | .error e => .error e
       | .ok (st', r, lg) => .ok (st', r.map fun (l, v) => (l, .some v), lg)
     | .many q =>
       match parse f q st c with
-      | .error (.missing _) => .ok (st, q.labels.map fun l => (l, .list []), [])
+      | .error (.missing _ _) => .ok (st, q.labels.map fun l => (l, .list []), [])
       | .error e => .error e
       | .ok (st', r, lg) =>
         match parse f (.many q) st' c with
@@ -334,32 +462,32 @@ def parse : Nat → OP → List Arg → Ctx → Res
         | .error e2 => .error (combineErrors e1 e2)
     | .commands common subs =>
       match splitNext st common.optionNames with
-      | none => .error (.missing st)
+      | none => .error (.missing st ("No command specified from " ++ showList (subs.map Prod.fst)))
       | some (first, name, second) =>
         match findSub name.2 subs with
-        | none => .error .other
+        | none => .error (.other ("Invalid command " ++ name.2))
         | some (tag, q) =>
-          -- parse_to_empty(options_parser, first_args)
+          -- parse_to_empty(options_parser, first_args): its error text is handed on in an other_error
           match parse f common first common.optionNames with
           | .error .diverge => .error .diverge
-          | .error _ => .error .other
+          | .error e => .error (.other e.msg)
           | .ok (rest, ro, lgo) =>
-            if !rest.isEmpty then .error .other
+            if !rest.isEmpty then .error (.other (leftoverText rest))
             else match parse f q second q.optionNames with
               | .error e => .error e
               | .ok (st', rq, lgq) =>
                 .ok (st', [("options", .recd ro), ("sub", .recd [(tag, .recd rq)])], lgo ++ (name.1, "cmd") :: lgq)
 
 inductive TopErr where
-  | error | diverge
+  | error (msg : String) | diverge
   deriving Repr, DecidableEq, Inhabited
 
 /-- `detail::parse_to_empty` -/
 def parseToEmpty (f : Nat) (p : OP) (st : List Arg) (c : Ctx) : Except TopErr (Rec × Log) :=
   match parse f p st c with
   | .error .diverge => .error .diverge
-  | .error _ => .error .error
-  | .ok (st', r, lg) => if st'.isEmpty then .ok (r, lg) else .error .error
+  | .error e => .error (.error e.msg)
+  | .ok (st', r, lg) => if st'.isEmpty then .ok (r, lg) else .error (.error (leftoverText st'))
 
 /-- attach the original indices -/
 def index (args : List String) : List Arg := (List.range args.length).zip args
@@ -369,63 +497,88 @@ def parseTop (f : Nat) (p : OP) (args : List String) : Except TopErr (Rec × Log
   parseToEmpty f p (index args) p.optionNames
 
 inductive HelpRes where
-  | help
+  | help (text : String)
   | result (r : Rec) (lg : Log)
   deriving Repr, Inhabited
 
 /-- the parser `parse_help` builds: `make_sum<label>(help_switch, parser)` -/
 def helpSum (hsh : Option String) (hlg : String) (p : OP) : OP := .sum "help" (.unitSwitch "h" hsh hlg) p
 
-/-- `fcppt::options::parse_help` -/
+/-- `fcppt::options::parse_help`: the help text is the usage of the *wrapped* parser -/
 def parseHelp (f : Nat) (hsh : Option String) (hlg : String) (p : OP) (args : List String) : Except TopErr HelpRes :=
   match parseToEmpty f (helpSum hsh hlg p) (index args) (helpSum hsh hlg p).optionNames with
   | .error e => .error e
-  | .ok ([(_, .left _)], _) => .ok .help
+  | .ok ([(_, .left _)], _) => .ok (.help p.usage)
   | .ok ([(_, .right (.recd r))], lg) => .ok (.result r lg)
-  | .ok _ => .error .error   -- not reachable: a sum yields exactly one left/right element (`helpSum_result_shape`)
+  | .ok _ => .error (.error "")   -- not reachable: a sum yields exactly one left/right element (`helpSum_result_shape`)
 
 /-- fuel that is provably enough for every shape without `many` around a non-consuming parser -/
 def fuelFor (p : OP) (n : Nat) : Nat := (n + 1) * p.size + 1
 
 /-! ## constructors -/
 
-def checkShortLong (sh : Option String) (lg : String) : Except ExcKind Unit :=
+/-- what a constructor throws: `fcppt::options::exception` / `duplicate_names` and its text (after the
+`fcppt::options: ` every `options::exception` puts in front) -/
+structure Exc where
+  kind : ExcKind
+  msg : String
+  deriving Repr, DecidableEq, Inhabited
+
+def excText (m : String) : String := "fcppt::options: " ++ m
+
+def checkShortLong (sh : Option String) (lg : String) : Except Exc Unit :=
   match sh with
-  | some s => if s = lg then .error .duplicateNames else .ok ()
+  | some s =>
+    if s = lg then .error ⟨.duplicateNames, excText ("Long and short options cannot have the same name: " ++ s)⟩ else .ok ()
   | none => .ok ()
 
-/-- `product::check_disjoint`: flag names and option names, without the short/long distinction -/
+/-- `product::check_disjoint`: flag names and option names, without the short/long distinction (a `std::set<string>`) -/
 def OP.allNames (p : OP) : List String := p.flagNames ++ p.optionNames.map Prod.fst
+
+/-- `set_intersection` of the two `all_parameters` sets -/
+def commonNames (a b : OP) : List String := toSet strLt (a.allNames.filter (b.allNames.contains ·))
 
 /-- `check_sub_command_names` -/
 def dupFree : List String → Bool
   | [] => true
   | a :: r => !r.contains a && dupFree r
 
+/-- the first name (in the order given) that occurs again later: the only one when exactly one name is duplicated
+(with several duplicated names the C++ reports whichever its `unordered_map` yields first) -/
+def firstDup : List String → Option String
+  | [] => none
+  | a :: r => if r.contains a then some a else firstDup r
+
 mutual
 /-- what the constructors do, sub-parsers first, left to right -/
-def construct : OP → Except ExcKind Unit
+def construct : OP → Except Exc Unit
   | .arg .. | .unit .. => .ok ()
-  | .flag _ sh lg act inact => do
+  | .flag _ sh lg act inact _ => do
     checkShortLong sh lg
-    if act.beqBase inact then .error .optionsException else .ok ()
-  | .opt _ sh lg _ _ => checkShortLong sh lg
+    if act.beqBase inact then
+      .error ⟨.optionsException, excText ("The active and the inactive value must be different: " ++ act.plain)⟩
+    else .ok ()
+  | .opt _ sh lg _ _ _ => checkShortLong sh lg
   | .unitSwitch _ sh lg => checkShortLong sh lg
   | .optional p | .many p => construct p
   | .prod a b => do
     construct a
     construct b
-    if a.allNames.any (b.allNames.contains ·) then .error .duplicateNames else .ok ()
+    if a.allNames.any (b.allNames.contains ·) then
+      .error ⟨.duplicateNames, excText ("The following names appear multiple times in a product parser: " ++ showList (commonNames a b))⟩
+    else .ok ()
   | .sum _ a b => do
     construct a
     construct b
   | .commands c subs => do
     construct c
     constructSubs subs
-    if dupFree (subs.map Prod.fst) then .ok () else .error .duplicateNames
-def constructSubs : List (String × String × OP) → Except ExcKind Unit
+    if dupFree (subs.map Prod.fst) then .ok ()
+    else .error ⟨.duplicateNames,
+      excText ("Sub command name \"" ++ (firstDup (subs.map Prod.fst)).getD "" ++ "\" specified multiple times!")⟩
+def constructSubs : Subs → Except Exc Unit
   | [] => .ok ()
-  | (_, _, p) :: r => do
+  | (_, _, _, p) :: r => do
     construct p
     constructSubs r
 end
